@@ -236,7 +236,10 @@ def main_check(prop: str, tier: str) -> int:
               f"{known_hits.get(e['key'], 0)} generated cases hit it in this run]")
 
     # ---- new violations
-    rdir = ROOT / "replays" / prop
+    import pathlib
+
+    # runs against another tree (sensitivity mutants, seeded changes) keep their replays out of the checkout
+    rdir = pathlib.Path(os.environ["VERIF_REPLAY_DIR"]) / prop if os.environ.get("VERIF_REPLAY_DIR") else ROOT / "replays" / prop
     vio_paths = []
     for sig, slot in sorted(new.items()):
         rdir.mkdir(parents=True, exist_ok=True)
@@ -272,7 +275,7 @@ def main_check(prop: str, tier: str) -> int:
         "wall_s": round(time.time() - t0, 2),
         "violations": len(new),
     }
-    edir = ROOT / "evidence"
+    edir = pathlib.Path(os.environ["VERIF_EVIDENCE_DIR"]) if os.environ.get("VERIF_EVIDENCE_DIR") else ROOT / "evidence"
     edir.mkdir(exist_ok=True)
     (edir / f"{prop}.json").write_text(json.dumps(ev, indent=1, default=repr) + "\n")
 
